@@ -747,4 +747,34 @@ theorem wrun_disciplined (a b : Nat) (s : PState) (hs : Synced s) (evs : List WE
     rw [disciplinedBy_append, Bool.and_eq_true]
     exact ⟨h1, ih _ h2 h.2⟩
 
+theorem cands_written (s : PState) (t : List Op) :
+    ∀ m ∈ metaCands (s.run t), m ∈ metaCands s ∨ Op.atomicWrite META m ∈ t := by
+  induction t generalizing s with
+  | nil => intro m hm; exact Or.inl hm
+  | cons op t ih =>
+    intro m hm
+    rw [run_cons] at hm
+    rcases ih (s.step op) m hm with h | h
+    · by_cases hsync : op = .syncDir
+      · subst hsync
+        rw [metaCands_step_sync] at h
+        left
+        cases hv : (s.dir.atom META).visible with
+        | none => simp [hv] at h
+        | some b =>
+          simp only [hv, Option.toList_some, List.mem_singleton] at h
+          subst h
+          exact visible_mem_cands _ _ hv
+      · by_cases hw : ∃ b, op = .atomicWrite META b
+        · obtain ⟨b, rfl⟩ := hw
+          rw [metaCands_step_write] at h
+          rcases List.mem_append.mp h with h | h
+          · exact Or.inl h
+          · simp only [List.mem_singleton] at h
+            subst h
+            exact Or.inr (by simp)
+        · rw [metaCands_step_other s op hsync (fun b e => hw ⟨b, e⟩)] at h
+          exact Or.inl h
+    · exact Or.inr (List.mem_cons_of_mem _ h)
+
 end TantivyModel.CommitProtocol
